@@ -369,6 +369,16 @@ Proof.
   exact (sstep_evicted_gone _ (OSet k0 v0) k He).
 Qed.
 
+(** after [set k v] the key is linked with content [v] (whatever was evicted) *)
+Theorem lfu_set_then_find c ops k v : 1 <= c ->
+  exists u, find_key k (buckets (state_of c (ops ++ [OSet k v]))) = Some (u, v).
+Proof.
+  intros Hc. destruct (lfu_state_agrees c (ops ++ [OSet k v]) k Hc) as [FK _].
+  rewrite srun_app in FK. cbn [fst] in FK. rewrite srun_cons in FK. cbn [sstep fst srun] in FK.
+  unfold sval, suses in FK. rewrite sfind_sset, Z.eqb_refl in FK. cbn [option_map] in FK.
+  eexists. exact FK.
+Qed.
+
 (** (b) never more than capacity keys *)
 Theorem lfu_bounded c ops : 1 <= c -> size (state_of c ops) <= c.
 Proof. intros Hc. destruct (lfu_inv c ops Hc) as (_ & _ & _ & H1 & H2). lia. Qed.
@@ -402,6 +412,7 @@ Arguments lfu_state_agrees {val}.
 Arguments run_app {val}.
 Arguments lfu_last_value {val}.
 Arguments lfu_evicted_gone {val}.
+Arguments lfu_set_then_find {val}.
 Arguments lfu_bounded {val}.
 
 (* ------------------------------------------------------------------ *)
